@@ -973,6 +973,14 @@ package saml2
 //@        && lastarg(SAMLServiceProvider.BuildAuthURLFromDocument, 2) == lastres(SAMLServiceProvider.BuildAuthRequestDocument, 0)
 //@        && result == lastres(SAMLServiceProvider.BuildAuthURLFromDocument, 0) && err == lasterr(SAMLServiceProvider.BuildAuthURLFromDocument)
 
+// AuthRedirect (C14): the browser is sent, with 302 Found, to exactly the URL BuildAuthURL produced for this relay state;
+// nothing is sent when building fails.
+//@ func (sp *SAMLServiceProvider) AuthRedirect(w http.ResponseWriter, r *http.Request, relayState string) (err error)
+//@   requires SPValid(sp) && sp.signingContextMu.$mu == 0 && NoReservedParams(sp.IdentityProviderSSOURL) && (sp.SignAuthnRequests ==> HasSignKey(sp))
+//@   exit [C14] wiring: lastarg(SAMLServiceProvider.BuildAuthURL, 0) == sp && lastarg(SAMLServiceProvider.BuildAuthURL, 1) == relayState
+//@   exit [C14] failed: lasterr(SAMLServiceProvider.BuildAuthURL) != nil ==> err == lasterr(SAMLServiceProvider.BuildAuthURL)
+//@   exit [C14] target: err == nil ==> redirectTarget(w) == lastres(SAMLServiceProvider.BuildAuthURL, 0) && redirectCode(w) == 302
+
 //@ func (sp *SAMLServiceProvider) BuildLogoutRequestDocument(nameID string, sessionIndex string) (doc *etree.Document, err error)
 //@   requires SPValid(sp) && sp.signingContextMu.$mu == 0 && HasSignKey(sp)
 //@   frame [C13, C15]
